@@ -92,6 +92,9 @@ OMEN_MODELS = [
     # OMEN optimizer, so sub-problems with more than 10 levels left are solved before and after the ones with exactly 10 left
     {'ngram': 2, 'alphabet': ['a', 'b', 'c'], 'ip': {'a': 0, 'b': 1, 'c': 3}, 'ep': {}, 'top_level': 16,
      'cp': {'aa': 0, 'ab': 1, 'ac': 10, 'ba': 0, 'bb': 2, 'bc': 10, 'ca': 1, 'cb': 0, 'cc': 10}, 'ln': [10, 0, 0, 1]},
+    # the cheapest initial n-gram is not at level 0, and a level spans several lengths
+    {'ngram': 2, 'alphabet': ['a', 'b', 'c'], 'ip': {'a': 1, 'b': 2, 'c': 4}, 'ep': {}, 'top_level': 9,
+     'cp': {'aa': 0, 'ab': 1, 'ac': 3, 'ba': 0, 'bb': 2, 'bc': 1, 'ca': 1, 'cb': 0, 'cc': 2}, 'ln': [10, 0, 1, 1, 2]},
     {'ngram': 3, 'alphabet': ['a', 'b'], 'ip': {'aa': 0, 'ab': 1, 'ba': 10, 'bb': 2}, 'ep': {}, 'top_level': 14,
      'cp': {'aaa': 10, 'aab': 0, 'aba': 0, 'abb': 10, 'baa': 0, 'bab': 1, 'bba': 10, 'bbb': 0}, 'ln': [10, 10, 0, 1, 0]},
 ]
